@@ -107,6 +107,10 @@ package jsonschema
 //@   ensures[C08] total: shaped(v) && kind(v) != 20 && kind(v) != 22 ==> result1
 //@   ensures[C08] name: shaped(v) && kind(v) != 20 && kind(v) != 22 ==> result0 == typeName(jv(v))
 
+//@ contract isJSONString(v)
+//@   pure
+//@   ensures[C08,C01] def: result == (kind(v) == 24 && !isJsonNumber(v))
+
 //@ contract hashValue(h, v)
 //@   requires new(h) && shaped(v)
 
